@@ -5,7 +5,7 @@ select(<its path string>))."""
 import cardgen as G
 
 WEIGHTS = {"add": 30, "select": 10, "chain": 8, "delete": 12, "dellist": 6, "plot": 6, "table": 6, "metrics": 6,
-           "hyper": 2, "vis": 4, "fold": 4, "title": 5}
+           "hyper": 2, "modelplot": 3, "vis": 4, "fold": 4, "title": 5}
 MODE = {"toc": True, "render": True, "nodes": True, "addr": True}
 
 # fixed witness of the open finding C09-F1 (Card.select / Card.delete accept an empty name in the middle of a path)
